@@ -7,6 +7,57 @@ use std::time::Duration;
 
 pub struct SledDB(Sled);
 
+/// Verification hook (compiled only with `--cfg zerokit_verif`): a process-global
+/// "fail the N-th storage operation from now" counter consulted by `put`, `put_batch` and `close`.
+/// Inert unless armed.
+#[cfg(zerokit_verif)]
+pub mod verif_fault {
+    use std::sync::atomic::{AtomicI64, AtomicU64, Ordering};
+    /// remaining operations before the injected failure; < 0 = disarmed
+    pub static REMAINING: AtomicI64 = AtomicI64::new(-1);
+    pub static COUNT: AtomicU64 = AtomicU64::new(0);
+    pub static FIRED: AtomicU64 = AtomicU64::new(0);
+    /// 0 = return the adapter's error value, 1 = abort the process (crash point)
+    pub static MODE: AtomicU64 = AtomicU64::new(0);
+    pub fn arm(n: i64) {
+        REMAINING.store(n, Ordering::SeqCst);
+        FIRED.store(0, Ordering::SeqCst);
+    }
+    pub fn disarm() {
+        REMAINING.store(-1, Ordering::SeqCst);
+    }
+    pub fn set_mode(m: u64) {
+        MODE.store(m, Ordering::SeqCst);
+    }
+    pub fn reset_count() {
+        COUNT.store(0, Ordering::SeqCst);
+    }
+    pub fn count() -> u64 {
+        COUNT.load(Ordering::SeqCst)
+    }
+    pub fn fired() -> u64 {
+        FIRED.load(Ordering::SeqCst)
+    }
+    /// true = this storage operation must fail
+    pub fn tick() -> bool {
+        COUNT.fetch_add(1, Ordering::SeqCst);
+        let r = REMAINING.load(Ordering::SeqCst);
+        if r < 0 {
+            return false;
+        }
+        if r == 0 {
+            FIRED.fetch_add(1, Ordering::SeqCst);
+            REMAINING.store(-1, Ordering::SeqCst);
+            if MODE.load(Ordering::SeqCst) == 1 {
+                std::process::abort();
+            }
+            return true;
+        }
+        REMAINING.store(r - 1, Ordering::SeqCst);
+        false
+    }
+}
+
 impl SledDB {
     fn new_with_tries(config: <SledDB as Database>::Config, tries: u32) -> PmtreeResult<Self> {
         // If we've tried more than 10 times, we give up and return an error.
@@ -68,6 +119,12 @@ impl Database for SledDB {
     }
 
     fn close(&mut self) -> PmtreeResult<()> {
+        #[cfg(zerokit_verif)]
+        if verif_fault::tick() {
+            return Err(PmtreeErrorKind::DatabaseError(
+                DatabaseErrorKind::CustomError("Cannot flush database".to_string()),
+            ));
+        }
         let _ = self.0.flush().map_err(|_| {
             PmtreeErrorKind::DatabaseError(DatabaseErrorKind::CustomError(
                 "Cannot flush database".to_string(),
@@ -84,6 +141,10 @@ impl Database for SledDB {
     }
 
     fn put(&mut self, key: DBKey, value: Value) -> PmtreeResult<()> {
+        #[cfg(zerokit_verif)]
+        if verif_fault::tick() {
+            return Err(PmtreeErrorKind::TreeError(TreeErrorKind::InvalidKey));
+        }
         match self.0.insert(key, value) {
             Ok(_) => Ok(()),
             Err(_e) => Err(PmtreeErrorKind::TreeError(TreeErrorKind::InvalidKey)),
@@ -91,6 +152,10 @@ impl Database for SledDB {
     }
 
     fn put_batch(&mut self, subtree: HashMap<DBKey, Value>) -> PmtreeResult<()> {
+        #[cfg(zerokit_verif)]
+        if verif_fault::tick() {
+            return Err(PmtreeErrorKind::TreeError(TreeErrorKind::InvalidKey));
+        }
         let mut batch = sled::Batch::default();
 
         for (key, value) in subtree {
